@@ -20,7 +20,7 @@ typedef uintptr_t entry;
 /* ---- container stub: contracts proved in unit gca ---- */
 struct items { size_t cap; unsigned grows; };
 struct cwsd { struct items _items; size_t _bottom; size_t _top; };
-#define MAX_CAP ((size_t)1 << 30)
+#define MAX_CAP ((size_t)1 << 31)
 #define MAX_IDX ((size_t)1 << 62)   /* assumption: fewer than 2^62 pushes in the life of a deque (try_steal computes a signed difference) */
 size_t g_j; entry g_v;          /* ghost: the cell of every index congruent to g_j (mod cap) holds g_v */
 uint64_t get_clock; size_t get_idx; entry get_val; unsigned get_count;
@@ -77,7 +77,7 @@ void xv_env(void) {
 #include "lowered.h"
 
 static void havoc_state(struct cwsd* d) {
-  unsigned c = nondet_uint(); XV_ASSUME(c >= 1 && c <= 30);
+  unsigned c = nondet_uint(); XV_ASSUME(c >= 1 && c <= 31);
   d->_items.cap = (size_t)1 << c; d->_items.grows = 0;
   d->_bottom = nondet_size(); d->_top = nondet_size();
   XV_ASSUME(d->_top <= d->_bottom && d->_bottom - d->_top <= d->_items.cap && d->_bottom < MAX_IDX);
